@@ -205,7 +205,11 @@ class Reference:
                     self.cand_causes[(consumer, kw, c)] = list(f.causes)
                     fatal = [c_ for c_ in f.causes if c_[0] == 'fatal']
                     if fatal:
-                        # a BaseException is not an ordinary failure: it is not contained by the one-of
+                        # a BaseException is not an ordinary failure: it is not contained by the one-of. Whether the
+                        # node that raises it is reached at all depends on which failure stops the candidate first
+                        # (the engine stops a candidate on its first error, this model evaluates everything)
+                        if len(f.causes) > len(fatal):
+                            self.ambiguous.append(f'Fatal next to an ordinary failure inside candidate {c}')
                         raise RefFail(fatal)
                     continue
             raise RefFail([('oneof', consumer, kw)])
